@@ -299,6 +299,17 @@ for _k in ("tensor", "sptensor", "ttensor"):
                 M = gen.normals(e.rng, (bad, J) if tr else (J, bad))
                 return f"{k}.ttm", X.ttm, (M, d), {"transpose": tr}, X, {}
 
+            @row(f"{k}.ttm:one-bare-matrix-for-several-modes:transpose={tr}", (3,))
+            def _r3(e, k=k, tr=tr):
+                # one matrix, not in a list, with two or three modes named (by dims, by exclude_dims, or by naming none): the list
+                # form of the same request is rejected, so must this one be; the matrix fits the lowest named mode
+                X = e.holder(k)
+                c = int(e.rng.integers(0, 3))
+                kw = [{"dims": np.array([0, 2])}, {"exclude_dims": np.array([0])}, {}][c]
+                low = [0, 1, 0][c]
+                M = gen.normals(e.rng, (e.shape[low], 2) if tr else (2, e.shape[low]))
+                return f"{k}.ttm", X.ttm, (M,), dict(kw, transpose=tr), X, {"named_by": ["dims", "exclude_dims", "nothing"][c]}
+
             @row(f"{k}.ttm:too-many-matrices:transpose={tr}")
             def _r2(e, k=k, tr=tr):
                 X = e.holder(k)
@@ -847,6 +858,27 @@ def _(e):
 def _(e):
     shp, how = other_shape(e, "size")
     return "sumtensor.__init__", ttb.sumtensor, ([e.tensor(), with_shape(e, shp).ktensor()],), {}, None, {"how": how}
+
+
+for _side in ("left", "right"):
+    for _okind in ("tensor", "sptensor", "ktensor", "ttensor", "list", "list-second"):
+        def _mkSum(side, okind):
+            @row(f"sumtensor.__add__:{okind}-of-another-shape-on-the-{side}", (2, 3))
+            def _(e, side=side, okind=okind):
+                # every kind of operand on either side of the sum (on the left the sum answers through its reflected addition only
+                # for kinds that do not add themselves: lists and Tucker tensors)
+                X = e.sumtensor()
+                shp, how = other_shape(e)
+                e2 = with_shape(e, shp)
+                if okind == "list":
+                    other = [e2.tensor()]
+                elif okind == "list-second":
+                    other = [e.ktensor(), e2.sptensor()]
+                else:
+                    other = e2.holder(okind)
+                args = (X, other) if side == "right" else (other, X)
+                return "sumtensor.__add__", operator.add, args, {}, X, {"how": how}
+        _mkSum(_side, _okind)
 
 
 @row("sumtensor.__init__:non-tensor-part")
